@@ -539,7 +539,7 @@ def run(prog: Program, rep, tier: str) -> None:
         if len(rs) == 1 and isinstance(rs[0].value, ast.Call) and dotted(rs[0].value.func) in ("PenaltyResult", "cls"):
             b_ = bind_args(prog.func("pygradflow.penalty.PenaltyResult.__init__"), rs[0].value)
             pn = [p_ for p_ in prog.func("pygradflow.penalty.PenaltyResult.__init__").params if p_ != "self"]
-            ok = b_ is not None and U(facts_for(m).resolved(rs[0], b_[pn[0]])) == m.params[0] and isinstance(b_[pn[1]], ast.Constant) and b_[pn[1]].value is flag
+            ok = b_ is not None and U(facts_for(m).resolved(rs[0], b_[pn[0]])) == [p_ for p_ in m.params if p_ not in ("self", "cls")][0] and isinstance(b_[pn[1]], ast.Constant) and b_[pn[1]].value is flag
         rep.check(ok, "filter-5-result-flags", m.qualname, short(rs[0]) if rs else "", f"{nm}(rho) builds PenaltyResult(rho, {flag})", m.loc())
     pinit = prog.func("pygradflow.penalty.PenaltyResult.__init__")
     pa = {U(t): U(n.value) for n in own_nodes(pinit.node) if isinstance(n, ast.Assign) for t in n.targets}
